@@ -32,3 +32,9 @@ pub struct ExMutex<T: ?Sized>(std::sync::Mutex<T>);
 // `String -> Cow<str>` conversion (`.into()` resolves to this `From` impl): the Cow holds that string.
 pub assume_specification<'a>[<Cow<'a, str> as From<String>>::from](s: String) -> (c: Cow<'a, str>)
   ensures cow_target(&c)@ == s@;
+// ---- ReplaceSource::buffer (C07): what a Cow holds, as a function of its variant (std: deref of Borrowed(b) is b, of Owned(o) is o.borrow()) ----
+pub open spec fn cow_str_bytes(c: &Cow<str>) -> Seq<u8> { match c { Cow::Borrowed(b) => b.spec_bytes(), Cow::Owned(s) => encode_utf8(s@) } }
+pub open spec fn cow_bytes(c: &Cow<[u8]>) -> Seq<u8> { match c { Cow::Borrowed(b) => b@, Cow::Owned(v) => v@ } }
+pub broadcast axiom fn axiom_cow_str_deref(c: &Cow<str>) ensures #[trigger] cow_target::<str>(c).spec_bytes() == cow_str_bytes(c);
+/// std: `String::into_bytes` returns the string's UTF-8 bytes
+pub assume_specification[std::string::String::into_bytes](s: String) -> (r: Vec<u8>) ensures r@ == encode_utf8(s@);
